@@ -157,6 +157,12 @@ class C13(Prop):
             lock.close()
         return bindir
 
+    def generated(self, ctx):
+        """esl-shuffle -w: the roll range of esl_rsq_CShuffleWindows is read from the working tree (same file, same text as
+        C18's generated() - composed by import, so the two checks can never disagree about it)"""
+        from props import c18
+        return c18.SPEC.generated(ctx)
+
     def extra_checks(self, ctx):
         fails = []
         try:
@@ -202,6 +208,7 @@ class C13(Prop):
         out = []
         out += G.reference_cases(ctx)
         out += G.search_cases(ctx)
+        out += G.edge_cases(ctx)
         return self._fix(out)
 
     # -------------------------------------------------------------------------------------------------
@@ -219,6 +226,8 @@ class C13(Prop):
             a = impl_out[i] if i < len(impl_out) else "<missing>"
             b = model_out[i] if i < len(model_out) else "<missing>"
             if b.startswith("nopred") or b == "bad-op" and not case.get("ref"):
+                if case.get("nopred_first") and any(o_.startswith("run ") for o_ in case["ops"][i + 1:]):
+                    continue     # only the LAST invocation of the case must be predicted (the earlier ones feed the python monitor)
                 if case.get("ref") and case["ops"][i].startswith("run ") and not case.get("nopred_ok"):
                     return (i, a[:300], b + " (reference case without prediction)")
                 continue
@@ -279,7 +288,12 @@ class C13(Prop):
                     continue
                 cmd = " ".join(_shq(a.decode("latin-1")) for a in [okv.get("tool", "?").encode()] + argv)
                 site = _site(kv.get("site", "?"))
-                if site.endswith("/input-layer"):      # a death inside the shared readers is keyed by its site, not by the tool
+                if site.startswith("esl_buffer.c:failed_to_slurp"):
+                    # esl_buffer_OpenFile() on a directory: one root cause in the shared input layer whatever the tool (the site
+                    # token carries the path's letters: coarsen); an input that is not a directory keeps its own key
+                    isdir = any(a in (b".", b"/", b"/tmp", b"..") for a in argv)
+                    key = "C13:input-layer:directory-as-input" if isdir else "C13:input-layer:exception:esl_buffer.c:failed_to_slurp"
+                elif site.endswith("/input-layer"):      # a death inside the shared readers is keyed by its site, not by the tool
                     key = "C13:input-layer:%s:%s" % (cls, site[:-len("/input-layer")])
                 else:
                     key = "C13:%s:%s:%s" % (tool.replace(" ", "-"), cls, site)
@@ -297,6 +311,9 @@ class C13(Prop):
                 first = Failure("monitor", "%s: invalid arguments must be rejected with a non-zero status and a diagnostic, got %s" % (case["name"], runs[-1][1][:200]))
         if first is None and case.get("ref"):
             first = G.ref_monitor(ctx, case, out)
+        if first is not None and os.environ.get("C13_DEATHLOG"):       # builder's aid: every failure of a run, not only the first six
+            with open(os.environ["C13_DEATHLOG"], "a") as f:
+                f.write("%s\t%s\t%s\n" % (case["name"], first.key, first.what[:600]))
         return first
 
     def extra_evidence(self, ctx):
